@@ -1,5 +1,5 @@
 """C15 - input coercion and input validation agree (partial; DESIGN.md section 4, C15)."""
-from .common import A, gtypes_lemmas
+from .common import run_native, A, gtypes_lemmas
 
 LEVEL = "other"
 EXPLANATION = (
@@ -41,4 +41,30 @@ def extra_obligations(world, tier, seed):
         out.append({"func": "theories.inputs", "kind": "LEMMA", "text": name,
                     "status": "discharged" if r == z3.unsat else ("refuted" if r == z3.sat else "unknown"),
                     "backend": "z3", "time_s": round(time.time() - t0, 4)})
+    return out
+
+
+WITNESSES = {
+ 'F9-oneof-literal-duplicate-field': r'''
+from graphql import build_schema, parse_value
+from graphql.pyutils import Undefined
+from graphql.utilities import coerce_input_literal, validate_input_literal
+s = build_schema('input O @oneOf { a: Int b: Int } type Query { f(o: O): Int }')
+O = s.type_map['O']
+for lit in ['{a: 1, a: 2}', '{a: null, a: 1}', '{a: 1}', '{a: 1, b: 2}', '{}']:
+    errs = []
+    validate_input_literal(parse_value(lit), O, lambda e, p: errs.append(e))
+    assert (coerce_input_literal(parse_value(lit), O) is Undefined) == bool(errs), lit
+''',
+}
+
+
+def native_checks(tier, seed):
+    """Replays of the witnesses of repaired defects (KNOWN_FINDINGS.json 'fixed'): a fixed entry
+    suppresses nothing, so the violation is reported again if it ever returns."""
+    out = []
+    for name, code in WITNESSES.items():
+        rc, outp = run_native(code)
+        out.append({"id": f"C15/native/{name}", "failed": rc != 0, "output": outp,
+                    "input": code.strip()})
     return out
